@@ -16,6 +16,8 @@ inductive Out
   | tokens (atk : Nat) (rt : Option Nat) (idToken : Bool) (expiresIn : Int) (scopes : List String)
   | active (use : String) (r : Req)
   | inactive (e : Err)
+  | device (dc uc : Nat) (expiresIn : Int)
+  | par (uri : Nat) (expiresIn : Int)
   deriving Repr, Inhabited
 
 def HP (α : Type) := Prog (Except Err α)
@@ -48,6 +50,7 @@ end HP
 def Res.errKind : Res → Option Err
   | .notFound => some .not_found
   | .inactive _ => some .token_inactive
+  | .usedDev _ => some .token_inactive
   | .fail e => some e
   | _ => none
 
